@@ -3,6 +3,7 @@ use crate::framework::Property;
 
 pub mod c01;
 pub mod c02;
+pub mod c02_mux;
 pub mod c03;
 pub mod c04;
 pub mod c05;
